@@ -308,17 +308,13 @@ theorem dkg_attempt_has_quorum {c : Consts} {shuf : Nat → List Nat} {ops : Lis
     exact ⟨s, hs, h2.1, h2.1 ▸ h2.2⟩
   · cases h2
 
-/-- `dkg_participates_partial`.  The DKG loop never looks at the current block.  What keeps a member
-    that reaches attempt `n` after its announcement window has passed out of the attempt is the
-    announcer: its context is cancelled as soon as the block counter reports the (already reached)
-    announcement end block, and **assumption A-ann**: `Announce` on a context that is already done
-    returns no more than the caller itself (`s.ready.length ≤ 1`; the real announcer marks itself
-    ready and leaves its receive loop on `ctx.Done()`; it is timing dependent whether messages that
-    are already buffered are still read, which is why this is an assumption, not a theorem).  Under
-    A-ann and `quorum > 1` (the gap named in DESIGN §5) the attempt function is not called for `n`. -/
-theorem dkg_participates_partial {c : Consts} {shuf : Nat → List Nat} {ops : List C09.Addr} {q m s0 : Nat}
-    {script : List DStep} {n : Nat} {s : DStep} (hq : 1 < q) (hs : script[n - 1]? = some s)
-    (hpassed : s.ready.length ≤ 1) :
+/-- The DKG loop never looks at the current block; whether a member that reaches attempt `n` late
+    takes part is decided by the announcer alone.  The statement that holds unconditionally: if the
+    announcement of iteration `n` returned fewer than `quorum` members, the attempt function is not
+    called for `n`. -/
+theorem dkg_no_attempt_below_quorum {c : Consts} {shuf : Nat → List Nat} {ops : List C09.Addr} {q m s0 : Nat}
+    {script : List DStep} {n : Nat} {s : DStep} (hs : script[n - 1]? = some s)
+    (hbelow : s.ready.length < q) :
     ∀ st to ex r, Ev.dattempt n st to ex r ∉ dkRun c shuf ops q m s0 script := by
   intro st to ex r h
   obtain ⟨s', hs', _, hq'⟩ := dkg_attempt_has_quorum h
@@ -326,6 +322,28 @@ theorem dkg_participates_partial {c : Consts} {shuf : Nat → List Nat} {ops : L
   injection hs' with hs'
   subst hs'
   omega
+
+/-- `dkg_participates_partial`: the instance for a passed announcement window under **A-ann**
+    (`Announce` on a context that is already done returns only the caller) and `quorum > 1`.
+
+    A-ann was checked against the real `pkg/protocol/announcer` (harness/c11/announcer.go, `ann`
+    ops, hundreds of repetitions each):
+    * with a broadcast channel that honours the contract of the real libp2p channel (the handler is
+      never invoked once the context is done) a call on an already cancelled context returns exactly
+      `[caller]` every time — A-ann holds, and the harness checks it on every run;
+    * if announcements of the session already sit in the announcer's own buffer when the context is
+      done, Go's `select` between the buffer and `ctx.Done()` does pick them (observed in every
+      `eager` case with `k > 0`): the result is then the caller plus a random subset of the buffered
+      senders.  The DKG loop cancels the announcement context from a separate goroutine, after
+      `Announce` may already have registered its handler, so for a late member this window exists
+      for as long as other members' announcements of that session are still in flight.
+    Hence A-ann is a property of "context done before the handler is registered", not of the DKG
+    loop as such; `dkg_no_attempt_below_quorum` is the unconditional statement. -/
+theorem dkg_participates_partial {c : Consts} {shuf : Nat → List Nat} {ops : List C09.Addr} {q m s0 : Nat}
+    {script : List DStep} {n : Nat} {s : DStep} (hq : 1 < q) (hs : script[n - 1]? = some s)
+    (hpassed : s.ready.length ≤ 1) :
+    ∀ st to ex r, Ev.dattempt n st to ex r ∉ dkRun c shuf ops q m s0 script :=
+  dkg_no_attempt_below_quorum hs (by omega)
 
 /-! ## non-vacuity -/
 
